@@ -58,6 +58,7 @@ var oddHosts = []string{
 	"", "*.example.com", "foo.example.com", "*.foo.example.com", "bar.foo.example.com", "cafe.example.com",
 	"*.org", "bar.org", "example.com", "*.com", "*.a.b.c.d", "x.a.b.c.d", "*.xexample.com", "fooexample.com",
 	"~^", "*.", "*", ".example.com", "a", "*.a",
+	"a.example.com", "a.foo.example.com", "*.x.org", "a.x.org", "ab.x.org", "b.org",
 }
 
 func runLoop(r *rng.R, n int, w *bufio.Writer) int {
